@@ -21,6 +21,8 @@ pub enum OpWhat {
     Restart,
     AwaitClone,
     Join,
+    /// join future created, polled once and kept alive unresolved
+    JoinStash,
     Consume,
     ConsumeSync,
     Detach,
@@ -153,6 +155,8 @@ pub enum EvKind {
     OpBegin { client: usize, op: usize, what: OpWhat, actor: Option<ActorId>, via: Option<HKind>, msg: Option<u32> },
     OpEnd { client: usize, op: usize, res: OpRes, polls: u32 },
     OpSkip { client: usize, op: usize },
+    /// the operation's future returned Pending for the first time
+    OpFirstPending { client: usize, op: usize },
     Cb { actor: ActorId, value: u32, inc: u32, cb: Cb, enter: bool },
     HEnter { actor: ActorId, value: u32, inc: u32, inv: u32, msg: MsgRef },
     HStep { actor: ActorId, inv: u32, idx: u32 },
